@@ -815,6 +815,26 @@ func StringLit(e ast.Expr) (string, bool) {
 	return "", false
 }
 
+// StringLitS is StringLit through the substitution: an identifier that stands for a string
+// literal (a parameter of an inlined closure bound to its argument) is that literal.
+func (c *Ctx) StringLitS(e ast.Expr) (string, bool) {
+	for hops := 0; hops < 6; hops++ {
+		if s, ok := StringLit(e); ok {
+			return s, true
+		}
+		id, ok := ast.Unparen(e).(*ast.Ident)
+		if !ok {
+			return "", false
+		}
+		ex, ok := c.Subst[c.Info.Uses[id]]
+		if !ok {
+			return "", false
+		}
+		e = ex
+	}
+	return "", false
+}
+
 // NamedTypeName returns (pkgPath, name) of a (pointer to a) named type.
 func NamedTypeName(t types.Type) (string, string) {
 	if t == nil {
